@@ -1,7 +1,7 @@
 (* C16 - generators: the index decoders used for skip sampling are bijections, the sampled
    indices are distinct and in range. *)
 From Coq Require Import List Arith Lia.
-From XV Require Import Base.Label Base.LSet Model.Decoders Proofs.Combs Proofs.DecoderProofs Proofs.SkipAll Proofs.CompleteProofs Model.Simple Proofs.SunflowerProofs Proofs.SimpleGenProofs Base.ODict Base.Attr Base.Outcome Model.Hypergraph Model.SimplicialComplex Proofs.ScInv.
+From XV Require Import Base.Label Base.LSet Model.Decoders Proofs.Combs Proofs.DecoderProofs Proofs.SkipAll Proofs.CompleteProofs Model.Simple Proofs.SunflowerProofs Proofs.SimpleGenProofs Gen.SimpleGens Proofs.GensSource Base.ODict Base.Attr Base.Outcome Model.Hypergraph Model.SimplicialComplex Proofs.ScInv.
 Import ListNotations.
 
 (* _index_to_edge_comb(index, n, m) is the index-th m-combination of range(n) in lexicographic
@@ -125,3 +125,12 @@ Theorem C16_ring_lattice : forall n d k l, 0 < n ->
   (forall e, In e (ring_lattice_edges n d k l) -> length e = S (d - 1) /\ forall x, In x e -> x < n).
 Proof. exact ring_lattice_spec. Qed.
 Print Assumptions C16_ring_lattice.
+
+(* THE SOURCE TIE for the two comprehension-built generators: Gen/SimpleGens.v is regenerated on every run from
+   ring_lattice and star_clique (harness/translate_gens.py, fail-closed); the models the two theorems above speak
+   about are exactly the regenerated functions, for all parameter values *)
+Theorem C16_simple_generators_are_source :
+  (forall n d k l, ring_lattice_edges n d k l = src_ring_lattice n d k l) /\
+  (forall ns nc dmax, star_clique_edges ns nc dmax = src_star_clique ns nc dmax).
+Proof. split; [exact ring_lattice_is_source|exact star_clique_is_source]. Qed.
+Print Assumptions C16_simple_generators_are_source.
